@@ -88,7 +88,7 @@ def run(prop, cfg, a, seed, scratch, t0):
         for u in units:
             futs[ex.submit(verus_run.run_unit, u, a.repo, vdir)] = u
         kfut = None
-        if kani_run is not None and cfg.get('kani'):
+        if kani_run is not None and cfg.get('kani') and not os.environ.get('VERIF_SKIP_KANI'):
             kfut = ex.submit(kani_run.run_property, prop, cfg, tier, a.repo, scratch, seed)
         for f in cf.as_completed(futs):
             vres[futs[f]] = f.result()
@@ -122,7 +122,7 @@ def run(prop, cfg, a, seed, scratch, t0):
     for v in violations:
         kf = [k for k in known if k['property'] == prop and k['key'] == v.get('key')]
         if kf:
-            known_lines.append('KNOWN-FINDING: property=%s %s' % (prop, kf[0]['text']))
+            known_lines.append('KNOWN-FINDING: %s' % kf[0]['text'])
         else:
             reported.append(v)
     for l in sorted(set(known_lines)):
@@ -130,7 +130,11 @@ def run(prop, cfg, a, seed, scratch, t0):
 
     # ---------------- evidence
     wall = time.time() - t0
-    n_obl = len(v_obl) + (k_cov['complete_obligations'] if k_cov else 0)
+    # obligations that fail only because of a listed known finding are reported separately
+    known_keys = set(k['key'] for k in known if k['property'] == prop)
+    n_known = len([v for v in violations if v.get('key') in known_keys])
+    known_complete = len([v for v in violations if v.get('key') in known_keys and v.get('complete')])
+    n_obl = len(v_obl) + (k_cov['complete_obligations'] if k_cov else 0) - known_complete
     n_dis = len([o for o in v_obl if o['discharged']]) + (k_cov['complete_discharged'] if k_cov else 0)
     trusted = list(cfg.get('trusted_base', []))
     fn_list = []
@@ -163,8 +167,10 @@ def run(prop, cfg, a, seed, scratch, t0):
         solver_time_s=round(sum(vres[u].smt_ms for u in units) / 1000.0 + (k_cov['solver_s'] if k_cov else 0), 2),
         unbounded_obligations='Verus obligations (all inputs, all iterations) and loop-free Kani harnesses over full-domain inputs',
         explanation=cfg.get('explanation', ''),
-        degraded=bool(undecided),
+        degraded=bool(undecided) or bool(k_cov and k_cov.get('optional_undecided')),
         undecided=undecided,
+        not_decided_resource_limit=(k_cov.get('optional_undecided') if k_cov else []),
+        known_findings_reported=n_known,
     )
     if k_cov:
         coverage['bounded_checks'] = k_cov['bounded_checks']
@@ -180,8 +186,10 @@ def run(prop, cfg, a, seed, scratch, t0):
         coverage['rule'] = 'one evaluation per Verus obligation (contract clause, body safety, termination); non-trivial = the vacuity twin of the function (same requires, assert(false)) fails to verify'
     ev = dict(property_id=prop, tier=tier, seed=seed, level=level, coverage=coverage,
               assumptions=cfg.get('assumptions', []) + trusted, wall_s=round(wall, 2), violations=len(reported))
-    os.makedirs(os.path.join(VERIF, 'evidence'), exist_ok=True)
-    with open(os.path.join(VERIF, 'evidence', '%s.json' % prop), 'w') as f:
+    # evidence describes /repo; a run against another tree (--repo) writes next to its scratch output
+    evdir = os.path.join(VERIF, 'evidence') if os.path.realpath(a.repo) == '/repo' else os.path.join('/var/tmp', 'orxverif-evidence-other-tree')
+    os.makedirs(evdir, exist_ok=True)
+    with open(os.path.join(evdir, '%s.json' % prop), 'w') as f:
         json.dump(ev, f, indent=1)
 
     # ---------------- verdict
